@@ -214,11 +214,21 @@ theorem atanh_eq_artanh {u : ℝ} (h : u ∈ Set.Ioo (-1 : ℝ) 1) : Scalar.atan
 /-! ### IntervalTransformedParameter over ℝ -/
 namespace IT
 
+/-- the final clamp of `getOriginalValue` -/
+noncomputable def clamp (lo hi y : ℝ) : ℝ :=
+  if hi < (if y < lo then lo else y) then hi else (if y < lo then lo else y)
+
+theorem clamp_eq_self {lo hi y : ℝ} (h1 : lo ≤ y) (h2 : y ≤ hi) : clamp lo hi y = y := by
+  unfold clamp; rw [if_neg (not_lt.mpr h1), if_neg (not_lt.mpr h2)]
+
+theorem clamp_mem {lo hi : ℝ} (h : lo ≤ hi) (y : ℝ) : lo ≤ clamp lo hi y ∧ clamp lo hi y ≤ hi := by
+  unfold clamp; split_ifs <;> constructor <;> linarith
+
 theorem getOriginal_real (pi : ℝ) (t : IT ℝ) :
-    getOriginal pi t =
-      if t.hyper then (Real.tanh (t.x / t.scale) + 1) * (t.hi - t.lo) / 2 + t.lo
-      else (Real.arctan (t.x / t.scale) + pi / 2) * (t.hi - t.lo) / pi + t.lo := by
-  unfold getOriginal; cases t.hyper <;> simp
+    getOriginal pi t = clamp t.lo t.hi
+      (if t.hyper then (Real.tanh (t.x / t.scale) + 1) * (t.hi - t.lo) / 2 + t.lo
+      else (Real.arctan (t.x / t.scale) + pi / 2) * (t.hi - t.lo) / pi + t.lo) := by
+  unfold getOriginal clamp; cases t.hyper <;> simp
 
 theorem d1_real (pi : ℝ) (t : IT ℝ) :
     d1 pi t =
@@ -274,7 +284,8 @@ noncomputable def gh (s lo hi x : ℝ) : ℝ := (Real.tanh (x / s) + 1) * (hi - 
 noncomputable def gt (pi s lo hi x : ℝ) : ℝ := (Real.arctan (x / s) + pi / 2) * (hi - lo) / pi + lo
 
 theorem getOriginal_at (pi : ℝ) (t : IT ℝ) (x : ℝ) :
-    getOriginal pi (t.at x) = if t.hyper then gh t.scale t.lo t.hi x else gt pi t.scale t.lo t.hi x := by
+    getOriginal pi (t.at x) =
+      clamp t.lo t.hi (if t.hyper then gh t.scale t.lo t.hi x else gt pi t.scale t.lo t.hi x) := by
   obtain ⟨s, lo, hi, hy, x0⟩ := t
   cases hy <;> simp [getOriginal_real, «at», gh, gt]
 
@@ -353,6 +364,72 @@ theorem gt_mem_of_angle (pi s lo hi x : ℝ) (hpi : 0 < pi) (h : lo < hi)
       rw [div_lt_iff₀ hpi]
       nlinarith
     linarith
+
+/-- hyperbolic variant: the clamp is the identity -/
+theorem getOriginal_at_hyper (pi : ℝ) (t : IT ℝ) (hh : t.hyper = true) (hb : t.lo < t.hi) (x : ℝ) :
+    getOriginal pi (t.at x) = gh t.scale t.lo t.hi x := by
+  rw [getOriginal_at]; simp only [hh, if_true]
+  have ⟨h1, h2⟩ := gh_mem t.scale t.lo t.hi x hb
+  exact clamp_eq_self h1.le h2.le
+
+/-- tangent variant: the clamp is the identity under the angle guard -/
+theorem getOriginal_at_tan (pi : ℝ) (t : IT ℝ) (hh : t.hyper = false) (hb : t.lo < t.hi) (hpi : 0 < pi)
+    (x : ℝ) (ha : |Real.arctan (x / t.scale)| < pi / 2) :
+    getOriginal pi (t.at x) = gt pi t.scale t.lo t.hi x := by
+  rw [getOriginal_at]; simp only [hh, if_false, Bool.false_eq_true]
+  have ⟨h1, h2⟩ := gt_mem_of_angle pi t.scale t.lo t.hi x hpi hb ha
+  exact clamp_eq_self h1.le h2.le
+
+theorem arctan_abs_lt_of_pi_le {pi : ℝ} (h : Real.pi ≤ pi) (y : ℝ) : |Real.arctan y| < pi / 2 := by
+  rw [abs_lt]
+  have := Real.neg_pi_div_two_lt_arctan y
+  have := Real.arctan_lt_pi_div_two y
+  constructor <;> linarith
+
+/-- the angle of the tangent forward map is inside `]-pi/2, pi/2[` -/
+theorem angle_mem {pi lo hi v : ℝ} (hpi : 0 < pi) (h1 : lo < v) (h2 : v < hi) :
+    -(pi / 2) < pi * (v - lo) / (hi - lo) - pi / 2 ∧ pi * (v - lo) / (hi - lo) - pi / 2 < pi / 2 := by
+  have hu := u_mem h1 h2
+  have hw : hi - lo ≠ 0 := by linarith
+  have ha : pi * (v - lo) / (hi - lo) - pi / 2 = pi / 2 * (2 * (v - lo) / (hi - lo) - 1) := by
+    field_simp
+  rw [ha]
+  constructor <;> nlinarith [hu.1, hu.2]
+
+theorem gh_fwd {s lo hi v : ℝ} (hs : s ≠ 0) (h1 : lo < v) (h2 : v < hi) :
+    gh s lo hi (s * Real.artanh (2 * (v - lo) / (hi - lo) - 1)) = v := by
+  unfold gh
+  rw [mul_div_cancel_left₀ _ hs, Real.tanh_artanh (u_mem h1 h2)]
+  have : hi - lo ≠ 0 := by linarith
+  field_simp
+  ring
+
+theorem fwd_gh {s lo hi x : ℝ} (hs : s ≠ 0) (hb : lo < hi) :
+    s * Real.artanh (2 * (gh s lo hi x - lo) / (hi - lo) - 1) = x := by
+  have hw : hi - lo ≠ 0 := by linarith
+  have : 2 * (gh s lo hi x - lo) / (hi - lo) - 1 = Real.tanh (x / s) := by
+    unfold gh; field_simp; ring
+  rw [this, Real.artanh_tanh, mul_div_cancel₀ _ hs]
+
+theorem arctan_tan_angle {pi lo hi v : ℝ} (hpi : 0 < pi) (hle : pi ≤ Real.pi) (h1 : lo < v) (h2 : v < hi) :
+    Real.arctan (Real.tan (pi * (v - lo) / (hi - lo) - pi / 2)) = pi * (v - lo) / (hi - lo) - pi / 2 := by
+  have ⟨a1, a2⟩ := angle_mem hpi h1 h2
+  exact Real.arctan_tan (by linarith) (by linarith)
+
+theorem gt_fwd {pi s lo hi v : ℝ} (hpi : 0 < pi) (hle : pi ≤ Real.pi) (hs : s ≠ 0) (h1 : lo < v) (h2 : v < hi) :
+    gt pi s lo hi (s * Real.tan (pi * (v - lo) / (hi - lo) - pi / 2)) = v := by
+  unfold gt
+  rw [mul_div_cancel_left₀ _ hs, arctan_tan_angle hpi hle h1 h2]
+  have : hi - lo ≠ 0 := by linarith
+  field_simp
+  ring
+
+theorem fwd_gt {pi s lo hi x : ℝ} (hpi : 0 < pi) (hs : s ≠ 0) (hb : lo < hi) :
+    s * Real.tan (pi * (gt pi s lo hi x - lo) / (hi - lo) - pi / 2) = x := by
+  have hw : hi - lo ≠ 0 := by linarith
+  have : pi * (gt pi s lo hi x - lo) / (hi - lo) - pi / 2 = Real.arctan (x / s) := by
+    unfold gt; field_simp; ring
+  rw [this, Real.tan_arctan, mul_div_cancel₀ _ hs]
 
 theorem gh_hasDerivAt (s lo hi x : ℝ) :
     HasDerivAt (gh s lo hi) (1 / Real.cosh (x / s) ^ 2 * (hi - lo) / (2 * s)) x := by
